@@ -13,7 +13,7 @@ PROVISIONAL = []
 def match_known(entries, ev, fails, facts):
     """Return the entry whose key matches the rejected event, or None."""
     has, bad, _ = facts
-    op = {"out": "out_range", "pad": "pad", "mspad": "mspad"}.get(ev.get("k"))
+    op = {"out": "out_range"}.get(ev.get("k"))
     ret = ev.get("ret")
     for en in entries:
         k = en.get("key") or {}
@@ -95,6 +95,14 @@ def nontrivial_key(ev):
             return ("out", tuple(ev["h"]), ev["ret"], ev["m"] - ev["ret"] if ev["m"] - ev["ret"] < 2 else 2)
         if ev["ret"] < 0 and ev.get("nb", 0) > 0:
             return ("out-", ev["b"], ev["e"], ev["m"], ev["ret"], ev["nb"])
+    elif k == "outx":
+        if ev["ret"] > 0 and (ev["sd"] or ev["pad"]):
+            return ("outx", tuple(ev["h"]), ev["ret"], ev["sd"], ev["pad"])
+        if ev["ret"] < 0 and ev.get("nb", 0) > 0:
+            return ("outx-", ev["b"], ev["e"], ev["m"], ev["sd"], ev["pad"], ev["ret"], ev["nb"])
+    elif k == "padx":
+        if ev["xl"] and ev["nn"] != ev["n"]:
+            return ("padx", tuple(ev["h"]), ev["n"], ev["nn"], ev["pad"], ev["ret"], json.dumps(ev["xl"])[:200])
     elif k == "cat":
         if len(ev["fr"]) >= 2 or ev["pdn"] > 0 or ev["ret"] < 0:
             return ("cat", tuple(ev["h"]), ev["n"], ev["ret"], ev["nb"])
@@ -260,7 +268,8 @@ def run(ctx):
                 "through Framing!Parse, real padding bytes through Ext!ParseRaw). non-trivial = distinct events that are: an "
                 "emitted packet with >= 2 frames or padding, a refusal on a non-empty state, a cat of a multi-frame/padded/"
                 "rejected packet, a pad to a different length, an unpad that shortens, a multistream case with >= 2 streams, "
-                "a decode comparison of a re-sized packet")
+                "a decode comparison of a re-sized packet, a direct out_range_impl call with sd or pad set, a pad_impl call "
+                "that adds a non-empty extension list")
     ctx.assumptions = [
         "TLC 1.8.0 and the CommunityModules Json reader are trusted",
         "module Ext (builder b-ext) is taken as the meaning of the padding bytes; module Framing as the meaning of the header bytes",
@@ -303,7 +312,7 @@ def run(ctx):
         raise vf.Infra("behaviour generation failed: %s" % g.violation)
     lib_lines, behs = parse_gen(g.out)
     rnd = random.Random(ctx.seed)
-    nb = 700 if quick else 14000
+    nb = 600 if quick else 14000
     if len(behs) > nb:
         # all short histories plus a seeded sample of the long ones
         short = [b for b in behs if len(b[0]) <= 1]
@@ -332,11 +341,13 @@ def run(ctx):
         jobs += [Job("random%d" % i, "random", [s + 1000 * i, 32]) for i in range(4)]
         jobs += [Job("pad%d" % i, "pad", [s + 100000 + 5000 * i, 1000]) for i in range(2)]
         jobs += [Job("ms%d" % i, "ms", [s + 200000 + 5000 * i, 500]) for i in range(2)]
+        jobs += [Job("padx%d" % i, "padx", [s + 400000 + 5000 * i, 350]) for i in range(2)]
         jobs += [Job("audio", "audio", [s, 40])]
     else:
         jobs += [Job("random%d" % i, "random", [s + 1000 * i, 330]) for i in range(12)]
         jobs += [Job("pad%d" % i, "pad", [s + 100000 + 20000 * i, 12000]) for i in range(6)]
         jobs += [Job("ms%d" % i, "ms", [s + 300000 + 20000 * i, 4000]) for i in range(6)]
+        jobs += [Job("padx%d" % i, "padx", [s + 500000 + 20000 * i, 5000]) for i in range(6)]
         jobs += [Job("audio%d" % i, "audio", [s + i, 250]) for i in range(2)]
     lock = threading.Lock()
 
@@ -409,7 +420,10 @@ META = dict(
                 "suffice for extension-free selections, pad reaches every length, unpad is canonical/idempotent/not longer. "
                 "The real library is bound by replaying TLC-generated behaviours with model-chosen exact-fit maxlen probes, seeded "
                 "random executions up to 48 frames, pad/unpad and multistream boundary cases (in place, exact-size buffers, "
-                "canaries, ASan/UBSan) and decode comparisons; TLC judges every recorded event statefully."),
+                "canaries, ASan/UBSan) and decode comparisons; TLC judges every recorded event statefully. Also bound: "
+                "opus_repacketizer_out_range_impl with self_delimited/pad set (exact size and fit), opus_packet_pad_impl adding "
+                "extension lists (own + added extensions per frame, size within the generator-contract bounds, illegal lists "
+                "refused) and multistream pad/unpad on extension-carrying streams (per stream Framing!Parse(sd) + Ext!ParseRaw)."),
     level_note=("Trusted: TLC, the Json module, modules Framing and Ext as the reading of RFC 6716 / the extension draft. The "
                 "implementation is exercised on generated and sampled executions, not on all of them. One deviation (F2: 1277 bytes per "
                 "frame do not suffice when extensions are carried) is matched as a known finding; F2b and F2c, found by this check, "
